@@ -19,6 +19,7 @@ def masks(n):
     a = lentil.circle((n, n), n / 4 - 0.5, shift=(0, -n / 4), antialias=False)
     b = lentil.circle((n, n), n / 4 - 0.5, shift=(0, n / 4), antialias=False)
     out['two-discs'] = np.clip(a + b, 0, 1)
+    out['disc-antialiased'] = lentil.circle((n, n), n / 2 - 2.25, shift=(0.5, 0.25), antialias=True) * 3.0    # non-binary: fractional edge, value 3 inside
     return out
 
 
@@ -47,6 +48,8 @@ def chk(case, acc, seed):
     mask = masks(n)[mname]
     rho, theta = coords_for(mask, ckind)
     kw = {} if rho is None else {'rho': rho, 'theta': theta}
+    coords0 = None if rho is None else (rho.copy(), theta.copy())
+    mask0 = mask.copy()
     on = mask != 0
     # conditioning of the chosen basis on this mask
     B = lentil.zernike_basis(mask, modes, vectorize=True, normalize=normalize, **kw)
@@ -73,6 +76,17 @@ def chk(case, acc, seed):
         fit = lentil.zernike_fit(opd, mask, modes, normalize=normalize, **kw)
         if rm.maxerr(fit, cvec) > tolc * (1 + np.max(np.abs(cvec))):
             acc.violation(f'fit:roundtrip:{sub_key}:{ckind}', sub, f'fit(compose(c)) = {np.round(fit, 6).tolist()} != c = {cvec.tolist()}')
+        if vi == len(vecs) - 1:
+            # the same OPD handed over in other memory layouts is the same OPD
+            for lname, arr in (('fortran', np.asfortranarray(opd)), ('transposed-view', np.ascontiguousarray(opd.T).T), ('float32', opd.astype(np.float32))):
+                f2 = lentil.zernike_fit(arr, mask, modes, normalize=normalize, **kw)
+                if rm.maxerr(f2, fit) > (1e-5 if lname == 'float32' else tolc) * (1 + np.max(np.abs(cvec))):
+                    acc.violation(f'fit:memory-layout:{lname}', dict(sub, layout=lname), f'fit of the same OPD in {lname} layout: {np.round(f2, 6).tolist()} != {np.round(fit, 6).tolist()}')
+                if normalize:
+                    r2 = lentil.zernike_remove(arr, mask, modes, **kw)
+                    r1 = lentil.zernike_remove(opd, mask, modes, **kw)
+                    if rm.maxerr(np.asarray(r2, float)[on], np.asarray(r1, float)[on]) > (1e-5 if lname == 'float32' else tolc * 10) * (1 + np.max(np.abs(opd))):
+                        acc.violation(f'remove:memory-layout:{lname}', dict(sub, layout=lname), 'zernike_remove depends on the memory layout of the OPD')
         if normalize:
             # remove() has no normalize switch (always normalised modes)
             bump = 0.3 * np.asarray(lentil.zernike(mask, max(modes) + 3, **kw), dtype=float) + 0.05 * on * np.cos(np.arange(mask.size).reshape(mask.shape))
@@ -101,6 +115,10 @@ def chk(case, acc, seed):
                     acc.violation(f'remove:pure-subset:{sub_key}', dict(sub, opd=name), f'an OPD made only of the removed modes is not reduced to zero (max {np.max(np.abs(res[on])):.3e})')
             acc.cls('remove')
         acc.transitions += 1
+    if coords0 is not None and not (np.array_equal(rho, coords0[0]) and np.array_equal(theta, coords0[1])):
+        acc.violation('coords:caller-arrays-modified', case, 'the rho/theta arrays supplied by the caller were modified')
+    if not np.array_equal(mask, mask0):
+        acc.violation('mask:caller-array-modified', case, 'the mask supplied by the caller was modified')
     acc.cls(sub_key)
     acc.cls('coords:' + ckind)
     acc.case(case, nontrivial=True, outcome=f'{sub_key}-{ckind}-{normalize}')
@@ -124,7 +142,7 @@ def t_mask(arg, acc):
 def run(tier, seed, acc, procs=None):
     tasks = []
     for n in (16, 17):
-        for m in ('disc', 'disc-off', 'hexagon', 'two-discs'):
+        for m in ('disc', 'disc-off', 'hexagon', 'two-discs', 'disc-antialiased'):
             for sh in range(4):
                 tasks.append(('t_mask', {'tier': tier, 'seed': seed, 'n': n, 'mask': m, 'shard': sh, 'nshard': 4}))
     acc.states += 1
